@@ -166,7 +166,7 @@ func genScenario(rng *vk.Rand, v2 bool) *scenario {
 	sc.genesis = big.NewInt(0).Mul(bi(20000000), pow10(18))
 	sc.leaderPct = []float64{0.1, 0.1, 0.05, 0.25, 0.5, 0.123456}[rng.Intn(6)]
 	sc.protocolPct = []float64{0.1, 0.1, 0.01, 0.3, 0.07}[rng.Intn(5)]
-	sc.inflation = []float64{0.1084, 0.05, 0.01, 0.2}[rng.Intn(4)]
+	sc.inflation = []float64{0.1084, 0.05, 0.01, 0.2, 0}[rng.Intn(5)] // 0: year 11+ of the production schedule, rewards are the fees only
 	sc.topUpFactor = []float64{0.25, 0.25, 0.5, 1.0, 0, 0.1}[rng.Intn(6)]
 	sc.gradient = big.NewInt(0).Mul(bi(int64(rng.Range(1, 3000000))), pow10([]int{18, 18, 12, 21}[rng.Intn(4)]))
 	sc.protocolAddr = addrInShard(rng, coord, uint32(rng.Intn(int(sc.nShards))))
@@ -236,6 +236,12 @@ func genScenario(rng *vk.Rand, v2 bool) *scenario {
 		}
 	}
 	allOnline := rng.Chance(1, 4)
+	// legacy creator: half of the epochs have every selected validator active by V1's own rules
+	allActiveV1 := !v2 && rng.Chance(1, 2)
+	if allActiveV1 {
+		allOnline = true
+		sc.features = append(sc.features, "all-active")
+	}
 	for _, s := range shards {
 		nEl := sc.cons[s] + rng.Intn(7)
 		online := 0
@@ -341,6 +347,13 @@ func genScenario(rng *vk.Rand, v2 bool) *scenario {
 			if rng.Chance(1, 3) {
 				v.ValidatorFailure = uint32(rng.Intn(4))
 			}
+			if allActiveV1 && i < nEl && v.NumSelectedInSuccessBlocks > 0 {
+				if v.LeaderSuccess == 0 && v.ValidatorSuccess == 0 && v.ValidatorIgnoredSignatures > 0 {
+					v.ValidatorIgnoredSignatures--
+					v.ValidatorSuccess++
+				}
+				v.ValidatorFailure = uint32(rng.Range(1, 4))
+			}
 			if !off[i] && rng.Chance(1, 5) {
 				v.LeaderFailure = uint32(rng.Intn(3))
 			}
@@ -367,6 +380,9 @@ func genScenario(rng *vk.Rand, v2 bool) *scenario {
 	}
 	if sc.offline > 0 {
 		sc.features = append(sc.features, "offline")
+	}
+	if sc.inflation == 0 {
+		sc.features = append(sc.features, "no-inflation")
 	}
 	// ---- top-up stakes of the eligible nodes
 	topMode := rng.Intn(4)
@@ -471,7 +487,7 @@ func main() {
 	r := vk.Start("C35")
 	r.Rule("each case: 1..3 shards + metachain, consensus sizes 1..7, an epoch of 5..300 rounds with per-shard block counts (every round / few / random / a stalled shard); every block has a consensus group of the configured size drawn from the shard's eligible validators, an online leader, signers, a fee and a developer fee; validators: eligible (some offline the whole epoch, some leaving-but-active), waiting entries, reward addresses unique / shared inside and across shards / delegation contracts on the metachain / other metachain addresses; random top-up stakes (none, few wei, up to 1e23); leader/protocol percentages, inflation, top-up factor and gradient from small grids; rewards creator V2 (2 of 3 cases, epoch above the staking-v2 epoch) or the legacy V1. One evaluation = one created epoch checked. Non-trivial = at least two reward transactions; distinct = (creator, shards, sorted feature set, number of miniblocks).")
 	r.Assume("inputs are consistent as the property demands: validator statistics are derived block by block (sum NumSelectedInSuccessBlocks == blocks x consensus size, leaders' accumulated fees == per-block leader share of fee - developer fee), the economics values come from the real ComputeEndOfEpochEconomics over the same epoch (inputs it rejects are counted, not checked)",
-		"the protocol sustainability percentage is positive (a zero percentage with zero dust would give a zero-valued protocol transaction; not part of the generated domain)",
+		"the protocol sustainability percentage is positive and the epoch has something to distribute (with inflation 0 and no fees at all the creator emits a zero-valued protocol transaction; such epochs are counted, not checked)",
 		"delegation contracts are accounts of a real AccountsDB holding the delegation marker key; the staking data provider is a stub fed with the generated top-ups")
 	r.MinShapes(40)
 	nCases := r.N(6000, 150000)
@@ -538,6 +554,13 @@ func runCase(r *vk.Run, c *vk.Case) {
 	eco1, err := p1.econ.ComputeEndOfEpochEconomics(mb1)
 	if err != nil {
 		r.Count("inputs rejected by the real economics ("+firstWords(err.Error())+")", 1)
+		r.Trivial()
+		return
+	}
+	if eco1.TotalToDistribute.Sign() == 0 {
+		// inflation 0 and not a single fee in the epoch: nothing to distribute. The creator still emits the
+		// protocol transaction (value 0); outside the generated domain, only counted.
+		r.Count("epochs with nothing to distribute (not checked)", 1)
 		r.Trivial()
 		return
 	}
